@@ -179,6 +179,9 @@ class ActivityScenario(Scenario):
         if cfg['errors']:
             kw['errors'] = getattr(kopf.ErrorsMode, cfg['errors'])
         kopf.on.startup(id='act', registry=reg, **kw)(scripted(env, 'act', parse_script(self.params['script'])))
+        if self.params.get('sibling'):
+            # a second handler of the same activity that needs more rounds: the verdict of the whole activity covers ALL its handlers
+            kopf.on.startup(id='sib', registry=reg, backoff=1.0)(scripted(env, 'sib', parse_script(self.params['sibling'])))
         settings = make_settings()
 
         async def main() -> None:
@@ -201,6 +204,9 @@ class ActivityScenario(Scenario):
             out.append(self.viol(env, 'schedule-mismatch', f"activity cfg={cfg} script={script}: invoked at {calls}, the error policy says {want} (ends: {status})",
                                  carrier='activity', cls='any'))
         res = [p['result'] for _, k, p in env.obs if k == 'activity']
+        if self.params.get('sibling') and status in ('ok', 'failed'):
+            sib_last = self.params['sibling'][-1].split('~')[0]
+            status = 'failed' if (status == 'failed' or sib_last == 'perm') else 'ok'    # one handler failed for good = the activity failed
         if status in ('ok', 'failed') and res != [status]:
             out.append(self.viol(env, 'activity-verdict', f"activity cfg={cfg} script={script}: result {res}, expected {status}", carrier='activity'))
         return out
@@ -264,6 +270,8 @@ def build(carrier: str, cfg: dict, script: list[str], **kw: Any) -> Scenario:
                            settings=st, **kw)
     if carrier == 'activity':
         return ActivityScenario(cfg=cfg, script=script)
+    if carrier == 'activity+sibling':
+        return ActivityScenario(cfg=cfg, script=script, sibling=kw.get('sibling', ['temp1', 'temp1', 'ok']))
     raise ValueError(carrier)
 
 
@@ -279,6 +287,9 @@ def run(tier: str, seed: int) -> CheckResult:
             plain.append(build(carrier, cfg, script, delays=False, early_user=False, time_dev=False))
     for cfg, script in itertools.product(cfgs, (['temp', 'ok'], ['temp', 'temp', 'ok'], ['temp', 'temp', 'temp', 'temp', 'ok'], ['temp2~1', 'temp', 'ok'])):
         plain.append(build('parent', cfg, script, delays=False, early_user=False, time_dev=False))
+    for cfg, script in itertools.product(cfgs, (['perm'], ['arb'], ['temp', 'perm'], ['ok'], ['temp', 'ok'])):
+        plain.append(build('activity+sibling', cfg, script))
+        plain.append(build('activity+sibling', cfg, script, sibling=['temp1', 'perm']))
     for carrier in ('daemon+sibling', 'timer+sibling'):
         for cfg, script in itertools.product(cfgs, (['perm'], ['arb'], ['temp', 'temp', 'temp'], ['temp', 'ok'], ['ok'])):
             plain.append(build(carrier, cfg, script, delays=False, early_user=False, time_dev=False))
